@@ -38,6 +38,7 @@ ASSUMPTIONS = [
 EXHAUSTIVE_NOTE = {"quick": "all op sequences of length 1..4 over 9 ops x thresholds 1..3 (3*(9+81+729+6561) = 22140 histories), complete",
                    "thorough": "all op sequences of length 1..5 over 9 ops x thresholds 1..3 (199290 histories), complete"}
 MIN_NONTRIVIAL_FRACTION = 0.1
+RULE += " Added after the seeded rounds: " + '40% of the generated histories start by tripping the breaker and waiting out the timeout (probes are common); stub exceptions are drawn from 16 exception types.'
 
 PAIRS = {"raise_t": ("RAISE_TIMEOUT", "PERMIT"), "raise_v": ("EXECUTE", "RAISE_VALUE"), "raise_o": ("RAISE_OS", "PERMIT"), "ok": ("EXECUTE", "PERMIT"), "block": ("EXECUTE", "BLOCK"), "eblock": ("BLOCK", "PERMIT"), "fail": ("FAILURE", "PERMIT"),
          "raise_e": ("RAISE", "PERMIT"), "raise_a": ("EXECUTE", "RAISE"), "odd": ("UNKNOWN", "PERMIT"), "failblock": ("FAILURE", "BLOCK")}
